@@ -247,6 +247,8 @@ def check(prog, run):
     run.rule("R3", "variable records: counted tables (count == number of entries emitted, fixed entry width), parameter-set arrays (length prefix of the very bytes that follow), descriptor lengths")
     from . import c07
     c07.hvcc_profile_bytes(prog, run, "R1")
+    c07.aac_frequency_index_rule(prog, run, "R1")
+    c07.av1c_flags_rule(prog, run, "R1")
     u = prog.lib
     it = L.Interp(u)
     for p in it.box_builders:
